@@ -46,6 +46,8 @@ extern crate alloc;
 
 /// Low level implementation primitives.
 pub mod core;
+#[cfg(all(paseto_verif, feature = "signing"))]
+mod verif;
 
 pub use paseto_core::PasetoError;
 
